@@ -448,6 +448,14 @@ def binop(ev, op, a, b, node, fr):
         (a.tag == "unit" and isinstance(op, ast.Pow)) else None
     if tag == "unit":
         unit = r
+    # the sign of a floating-point zero survives multiplication / division by a positive quantity (-0.0 * dt is -0.0)
+    if tag is None and isinstance(op, (ast.Mult, ast.Div)) and (a.tag == "negzero") != (b.tag == "negzero"):
+        other_ = b if a.tag == "negzero" else a
+        o_ = sp.sympify(other_.expr)
+        coeff_ = o_.as_coeff_Mul()[0] if (o_.free_symbols & UNIT_SYMS) else o_
+        rest_pos = all(getattr(s_, "is_positive", False) or s_ in UNIT_SYMS for s_ in o_.free_symbols)
+        if (coeff_.is_positive or (coeff_ == 1)) and rest_pos and not (isinstance(op, ast.Div) and b.tag == "negzero"):
+            tag = "negzero"
     if getattr(ev, "float_fold", False) and isinstance(op, (ast.Add, ast.Sub, ast.Mult, ast.Div)) and (a.isfloat or b.isfloat) \
             and kind == "number" and not shape and x.is_Rational and y.is_Rational and sp.sympify(r).is_Rational:
         # both operands are concrete doubles: fold with IEEE semantics (the exact result rounded to nearest-even double)
@@ -881,6 +889,8 @@ def index_term(ev, idx):
 
 def num_getitem(ev, obj: Num, idx, fr, node):
     out = _num_getitem(ev, obj, idx, fr, node)
+    if obj.tag == "negzero" and isinstance(out, Num) and out is not obj and out.tag is None and out.expr == 0:
+        out.tag = "negzero"
     if isinstance(out, Num) and out is not obj and out.base is None and out.shape and not any(isinstance(i, (NdArr,)) for i in _norm_index(ev, idx)):
         out.base = obj        # basic indexing gives a view
     return out
@@ -1496,6 +1506,9 @@ VIEW_METHODS = {"reshape", "swapaxes", "transpose", "view", "squeeze", "ravel"}
 
 def num_method(ev, x: Num, name, args, kwargs, fr, node):
     out = _num_method(ev, x, name, args, kwargs, fr, node)
+    if x.tag == "negzero" and isinstance(out, Num) and out is not x and out.tag is None and out.expr == 0 \
+            and name in ("to", "to_value", "astype", "copy", "reshape", "ravel", "squeeze", "flatten", "view", "item", "decompose"):
+        out.tag = "negzero"        # the sign of a floating-point zero survives unit conversion, casts between float types and reshaping
     if name in VIEW_METHODS and isinstance(out, Num) and out is not x and out.base is None:
         out.base = x          # NumPy returns a view of x here (whenever it can): writes through it reach x
     return out
@@ -2286,7 +2299,10 @@ def h_int(ev, args, kwargs, fr, node):
 def h_float(ev, args, kwargs, fr, node):
     x = args[0]
     if isinstance(x, Num):
-        return x.like(x.expr, isfloat=True, unit=x.unit)
+        o_ = x.like(x.expr, isfloat=True, unit=x.unit)
+        if x.tag == "negzero" and o_.tag is None:
+            o_.tag = "negzero"
+        return o_
     if isinstance(x, StrV):
         from .symeval import Raised
         try:
@@ -2692,7 +2708,9 @@ def h_two_sum(ev, args, kwargs, fr, node):
         return TupleV([Num(x, isfloat=True), Num(lo, isfloat=True)])
     if isinstance(a, Num) and isinstance(b, Num):
         hi = sp.Function("TwoSumHi")(a.expr, b.expr)
-        return TupleV([Num(hi, isfloat=True, shape=a.shape or b.shape), Num(a.expr + b.expr - hi, isfloat=True, shape=a.shape or b.shape)])
+        shp = _ufunc_broadcast_shape([a, b])
+        knd = "array" if shp else "number"
+        return TupleV([Num(hi, isfloat=True, shape=shp, kind=knd), Num(a.expr + b.expr - hi, isfloat=True, shape=shp, kind=knd)])
     ev.unsupported("two_sum of these operands", node, fr)
 
 
@@ -2707,7 +2725,9 @@ def h_two_product(ev, args, kwargs, fr, node):
         return TupleV([Num(x, isfloat=True), Num(lo, isfloat=True)])
     if isinstance(a, Num) and isinstance(b, Num):
         hi = sp.Function("TwoProdHi")(a.expr, b.expr)
-        return TupleV([Num(hi, isfloat=True, shape=a.shape or b.shape), Num(a.expr * b.expr - hi, isfloat=True, shape=a.shape or b.shape)])
+        shp = _ufunc_broadcast_shape([a, b])
+        knd = "array" if shp else "number"
+        return TupleV([Num(hi, isfloat=True, shape=shp, kind=knd), Num(a.expr * b.expr - hi, isfloat=True, shape=shp, kind=knd)])
     ev.unsupported("two_product of these operands", node, fr)
 
 
